@@ -75,6 +75,9 @@ void CONmtReset(CO_NMT *nmt, CO_NMT_RESET type)
     CO_OBJ    *obj;
     CO_HBCONS *hbc;
     uint8_t    nobootup = 1;
+#if USE_CSDO
+    uint8_t    num;
+#endif
     CO_ERR     err;
 
     ASSERT_PTR_FATAL(nmt);
@@ -131,6 +134,12 @@ void CONmtReset(CO_NMT *nmt, CO_NMT_RESET type)
         CONmtInit(nmt, nmt->Node);
         COSdoInit(nmt->Node->Sdo, nmt->Node);
 #if USE_CSDO
+        /* stop the timeout supervision of running SDO client transfers */
+        for (num = 0; num < (uint8_t)CO_CSDO_N; num++) {
+            if (nmt->Node->CSdo[num].Tfer.Tmr >= 0) {
+                (void)COTmrDelete(&nmt->Node->Tmr, nmt->Node->CSdo[num].Tfer.Tmr);
+            }
+        }
         COCSdoInit(nmt->Node->CSdo, nmt->Node);
 #endif
         COIfCanReset(&nmt->Node->If);
